@@ -255,7 +255,10 @@ class C03(Prop):
         if case["kind"] == "history":
             return self.evaluate_history(case, ctx, d)
         a = case["acq"]
-        delim, comma = case["delimiter"], case["decimal"] == ","
+        delim = case["delimiter"]
+        # comma_decimal=True may also be passed for a ';'-delimited export with decimal points: it holds no comma at all
+        comma_flag = bool(case.get("comma_flag")) and delim == ";" and case["decimal"] == "."
+        comma = case["decimal"] == "," or comma_flag
         trows, tcols = gen_thermo.table_rows(a), gen_thermo.table_cols(a)
         prow, pcol = d / "rows.csv", d / "cols.csv"
         gen_thermo.write(prow, trows, delim, case["eol"], case["bom"])
@@ -301,6 +304,45 @@ class C03(Prop):
             elif first is None:
                 feats.add("no-decimal-mark-at-all")
         bychan = {c["channel"]: c for c in rep["channels"]}
+        if comma_flag and case["kind"] == "readers":
+            feats.add("comma_decimal=True-on-an-export-without-commas")
+        if any(ord(ch) > 127 for x in a["samples"] + a["elements"] for ch in x):
+            feats.add("names:non-ascii")
+        if any(ch in x for x in a["samples"] + a["elements"] for ch in "\"'\t"):
+            feats.add("names:quotes-or-tabs")
+        if any(ch in x for x in a["samples"] + a["elements"] for ch in "\x0b\x0c\x1c\x85\u2028"):
+            feats.add("names:separators-of-str.splitlines")
+        if any(x != x.strip() or "  " in x for x in a["samples"] + a["elements"]):
+            feats.add("names:leading-trailing-double-blanks")
+        if len(set(a["samples"])) < len(a["samples"]):
+            feats.add("names:repeated-sample-name")
+        if len(a["elements"]) >= 30:
+            feats.add("k>=30")
+        if n >= 20 and m >= 20:
+            feats.add("n>=20-and-m>=20")
+        if "Time" in a["channels"]:
+            ti = a["channels"].index("Time")
+            first = [[gen_thermo.value_of(a["tokens"][i][s][0][ti].replace(",", ".")) for s in range(m)] for i in range(n)]
+            ivs = {round(r[s + 1] - r[s], 3) for r in first for s in range(m - 1)}
+            if len(ivs) > 2:
+                feats.add("time:irregular-intervals")
+            if any(r[s + 1] <= r[s] for r in first for s in range(m - 1)):
+                feats.add("time:repeated-or-earlier-stamp")
+            if n > 1 and len({tuple(round(r[s + 1] - r[s], 3) for s in range(m - 1)) for r in first}) > 1:
+                feats.add("time:intervals-differ-between-samples")
+        vals = [abs(gen_thermo.value_of(t.replace(",", "."))) for t in toks]
+        if any(v >= 1e200 for v in vals if v == v):
+            feats.add("values:>=1e200")
+        if any(0 < v <= 1e-200 for v in vals if v == v):
+            feats.add("values:<=1e-200")
+        if any(len([ch for ch in t.split("E")[0].split("e")[0] if ch.isdigit()]) >= 17 for t in toks):
+            feats.add("values:17-digits")
+        as_path = (lambda q: str(q)) if case.get("path_str") else (lambda q: q)
+        positional = bool(case.get("positional"))
+        if case.get("path_str"):
+            feats.add("call:path-as-str")
+        if positional:
+            feats.add("call:positional-arguments")
         with warnings.catch_warnings():
             warnings.simplefilter("ignore")
             logging.disable(logging.WARNING)
@@ -309,7 +351,8 @@ class C03(Prop):
                     for lay, path, rd, rp in (("rows", prow, thermo.icap_csv_rows_read_data, thermo.icap_csv_rows_read_params),
                                               ("cols", pcol, thermo.icap_csv_columns_read_data, thermo.icap_csv_columns_read_params)):
                         for ua, ch in ((False, "Counter"), (True, "Analog")):
-                            r = call(rd, path, delimiter=dl, comma_decimal=comma, use_analog=ua)
+                            r = (call(rd, as_path(path), dl, comma, ua) if positional
+                                 else call(rd, as_path(path), delimiter=dl, comma_decimal=comma, use_analog=ua))
                             key = f"{lay}.data.{ch}"
                             impl[key] = dict(ERR) if isinstance(r, Exception) else img_impl(r)
                             if ch in bychan:
@@ -319,7 +362,7 @@ class C03(Prop):
                                 model[key] = img_driver(mm[lay])
                                 spec[key] = impl[key]
                                 feats.add("channel-not-exported")
-                        r = call(rp, path, delimiter=dl, comma_decimal=comma)
+                        r = call(rp, as_path(path), dl, comma) if positional else call(rp, as_path(path), delimiter=dl, comma_decimal=comma)
                         key = f"{lay}.params"
                         impl[key] = dict(ERR) if isinstance(r, Exception) else params_impl(r)
                         model[key], u1 = params_driver(rep["params_" + lay])
@@ -328,7 +371,7 @@ class C03(Prop):
                             und = und or u1 or u2
                         else:
                             spec[key] = impl[key]
-                        r = call(thermo.icap_csv_sample_format, path)
+                        r = call(thermo.icap_csv_sample_format, as_path(path))
                         key = f"{lay}.format"
                         impl[key] = dict(ERR) if isinstance(r, Exception) else str(r)
                         model[key] = rep["sniff_" + lay]
@@ -339,7 +382,19 @@ class C03(Prop):
                     ua = case["use_analog"]
                     ch = "Analog" if ua else "Counter"
                     for lay, path in (("rows", prow), ("cols", pcol)):
-                        r = call(thermo.load, path, use_analog=ua, full=True)
+                        # full=False: the array alone
+                        r = call(thermo.load, as_path(path), ua, False) if positional else call(thermo.load, as_path(path), use_analog=ua, full=False)
+                        key = f"{lay}.load-data.{ch}"
+                        mj = rep[f"loaddata_{lay}" + ("_analog" if ua else "")]
+                        if isinstance(r, Exception):
+                            impl[key] = dict(ERR)
+                        elif isinstance(r, tuple):
+                            impl[key] = {"bad_return": "tuple"}
+                        else:
+                            impl[key] = {"image": img_impl(r)}
+                        model[key] = dict(ERR) if "raises" in mj else {"image": img_driver(mj["image"])}
+                        spec[key] = {"image": img_driver(bychan[ch]["spec"])} if ch in bychan else impl[key]
+                        r = call(thermo.load, as_path(path), ua, True) if positional else call(thermo.load, as_path(path), use_analog=ua, full=True)
                         key = f"{lay}.load.{ch}"
                         mj = rep[f"load_{lay}" + ("_analog" if ua else "")]
                         if isinstance(r, Exception):
